@@ -43,6 +43,9 @@ def exact_trunc_div(x, y):
     return q if (x >= 0) == (y >= 0) else -q
 
 
+_REAL = {}
+
+
 def tzd(x, y):
     """Model of pyoda_time.utility._csharp_compatibility._towards_zero_division for ints."""
     with NoTracing():
@@ -54,6 +57,13 @@ def tzd(x, y):
             if space.is_possible(z3.Or(v >= TZD_LIMIT, v <= -TZD_LIMIT)):
                 raise CrosshairUnsupported("tzd model obligation |x| < 10**26 not provable on this path")
             return SymbolicInt(z3.If(v >= 0, v / d, -((-v) / d)))
+        if type(x) is float or type(y) is float:
+            # a concrete double reached the division (only possible after floatpin pinned an int that was routed through floating
+            # point): run the repository's own Decimal-based implementation, the integer model does not describe it
+            real = _REAL.get("tzd")
+            if real is not None:
+                return real(x, y)
+            raise CrosshairUnsupported("tzd on a float: original implementation not captured")
     return exact_trunc_div(x, y)
 
 
